@@ -2,8 +2,8 @@
    This file holds only the statement, the property theorems and their non-vacuity examples.
    `prog` is ruleHash as regenerated from src/build/incrementality.go by gotrans; `ser prog false t` is the byte
    stream build.RuleHash(state, t, false, _) feeds to SHA-1 (tied on every run: sha1 of that stream = the real hash). *)
-From PlzV Require Import Base.Harness Model.C08 Model.C08_Set Model.C08_Spec Model.C08_Cache Gen.RuleHashProg Proof.C08
-  Proof.C08_Cache.
+From PlzV Require Import Base.Harness Model.C08 Model.C08_Set Model.C08_Spec Model.C08_Cache Model.C08_Store Model.C08_Srcs
+  Gen.RuleHashProg Proof.C08 Proof.C08_Cache Proof.C08_Store Proof.C08_Srcs.
 
 (* Two well-formed target definitions that differ in ANY build-relevant attribute (command selected for the
    configuration, srcs, named srcs, outs, named outs, optional outs, deps, tools, env, pass_env and the values of the
@@ -125,3 +125,80 @@ Example C08_postbuild_nonvacuous :
          = [ser prog false pb_base; ser prog false pb_base]
       /\ ser prog false pb_base <> ser prog false pb_built).
 Proof. split; [exact generated_wrapper_current | exact runtime_only_wrapper_stale]. Qed.
+
+(* ---------------------------------------------------------------------------------------------------------------------
+   "Please therefore never treats a changed definition as unchanged": a different rule hash leads to a rebuild only through
+   the comparison with the hash RECORDED on the outputs of the last build (writeRuleHash stamps every output,
+   readRuleHashFromXattrs reads the record back, needsBuilding compares).  The output directory outlives edits of the BUILD
+   file: an output that an edit no longer declares stays on disk with the record of the older definition.
+   `stored_reader_body` is the loop body of readRuleHashFromXattrs as regenerated from the source; `srun` runs ANY history
+   of builds of ANY definitions of the target (SvBuild t other: needsBuilding decides, `other` = it has another reason to
+   rebuild) and file deletions against one output directory, starting empty (Model/C08_Store.v).
+
+   1. After every history: if the rule-hash comparison answers "unchanged" for the definition t, then EVERY output of t is
+      on disk, carries the rule hash of t, and was written by the build of a definition with the same rule hash as t
+      (invariant over all histories: every record on disk is the rule hash of the definition that wrote the file; induction
+      over the outputs for the reader loop: a record is returned only if all outputs carry it).
+   2. Hence (H injective): if ANY output of t on disk was written by a definition that differs from t in one hashed field,
+      in the strings written for it and without a moved entry boundary (the characterisation of C08_partial), t is rebuilt. *)
+Definition C08_stored_statement : Prop :=
+  forall (D : Type) (Deqb : D -> D -> bool) (H : str -> D), (forall a b, Deqb a b = true <-> a = b) ->
+    (forall evs t,
+       let dk := fst (srun D Deqb H prog stored_reader_body [] evs) in
+       needs_building D Deqb H prog stored_reader_body dk t = false ->
+       Forall (fun o => exists f, lookup o dk = Some f /\ f_rec f = Some (H (ser prog false t))
+                                  /\ H (ser prog false (f_by f)) = H (ser prog false t)) (outputs_of t))
+    /\ (injective H -> forall evs t o f fld,
+          let dk := fst (srun D Deqb H prog stored_reader_body [] evs) in
+          In o (outputs_of t) -> lookup o dk = Some f ->
+          In fld hashed_fields -> agree_except fld (f_by f) t ->
+          toks_of fld false (f_by f) <> toks_of fld false t ->
+          shift_suspect (toks_of fld false (f_by f)) (toks_of fld false t) = false ->
+          needs_building D Deqb H prog stored_reader_body dk t = true).
+
+Theorem C08_stored : C08_stored_statement.
+Proof. exact C08_stored_proof. Qed.
+Print Assumptions C08_stored.
+
+(* Non-vacuity of C08_stored: the history v1 (outs a, b) / v2 (outs a, other command) / v1 again.  With the regenerated
+   reader the third build is a rebuild (a is written by v1 again); with a reader that keeps the record of the last output
+   (seeded mutation r2-m1) the third step answers "unchanged" while a was written by v2, whose stream differs. *)
+Example C08_stored_nonvacuous :
+  (snd (srun str (list_eqb N.eqb) (fun x => x) prog stored_reader_body [] st_history) = [true; true; true]
+   /\ option_map (@f_by str) (lookup (s "a") (fst (srun str (list_eqb N.eqb) (fun x => x) prog stored_reader_body [] st_history)))
+      = Some st_v1)
+  /\ (snd (srun str (list_eqb N.eqb) (fun x => x) prog reader_last_wins [] st_history) = [true; true; false]
+      /\ option_map (@f_by str) (lookup (s "a") (fst (srun str (list_eqb N.eqb) (fun x => x) prog reader_last_wins [] st_history)))
+         = Some st_v2
+      /\ ser prog false st_v1 <> ser prog false st_v2).
+Proof. split; [exact generated_reader_rebuilds | exact last_wins_reader_stale]. Qed.
+
+(* ---------------------------------------------------------------------------------------------------------------------
+   srcs as BuildInputs.  `ser_srcs prog srcs_skip rt t ins named` is ruleHash's stream for a target whose sources are the
+   inputs `ins` / `named` (file, label, annotated label, system file), with the `continue` guards gotrans found at the head of
+   the loop over AllSources() (`srcs_skip`); `stores t ins named`: the stored source strings of t are those of the inputs.
+   Two definitions whose lists of sources differ while every other stored attribute - in particular the list of declared
+   dependencies, so the SET of depended-on targets - is the same (label sources reordered, only a |annotation changed, a
+   label that already is a dependency added to srcs): the hashes are equal iff the written strings concatenate to the same
+   bytes, and differ whenever the written strings differ without a moved entry boundary. *)
+Definition C08_srcs_statement : Prop :=
+  forall (D : Type) (H : str -> D), injective H -> forall rt t1 t2 ins1 ins2 named,
+  stores t1 ins1 named -> stores t2 ins2 named -> agree_except FSrcs t1 t2 ->
+  let w1 := map input_string (all_inputs true ins1 named) in
+  let w2 := map input_string (all_inputs true ins2 named) in
+  (H (ser_srcs prog srcs_skip rt t1 ins1 named) = H (ser_srcs prog srcs_skip rt t2 ins2 named) <-> concat w1 = concat w2)
+  /\ (w1 <> w2 -> shift_suspect w1 w2 = false ->
+      H (ser_srcs prog srcs_skip rt t1 ins1 named) <> H (ser_srcs prog srcs_skip rt t2 ins2 named)).
+
+Theorem C08_srcs : C08_srcs_statement.
+Proof. exact C08_srcs_proof. Qed.
+Print Assumptions C08_srcs.
+
+(* Non-vacuity of C08_srcs: four pairs with deps [//p:a, //p:b] fixed - srcs [:a,:b]/[:b,:a], [:a|hdrs]/[:a|srcs],
+   [:a]/[:a|srcs], []/[:a] - have different streams under the regenerated guards, and equal (non-empty) streams under the
+   guard `if _, ok := source.Label(); ok { continue }` (seeded mutation r2-m2). *)
+Example C08_srcs_nonvacuous :
+  forallb (fun pr => negb (str_eqb (fst (shape_streams srcs_skip pr)) (snd (shape_streams srcs_skip pr)))) srcs_shapes = true
+  /\ forallb (fun pr => str_eqb (fst (shape_streams (BVar IVIsLabel) pr)) (snd (shape_streams (BVar IVIsLabel) pr))
+                        && negb (is_nil (fst (shape_streams (BVar IVIsLabel) pr)))) srcs_shapes = true.
+Proof. split; [exact generated_guards_detect_shapes | exact skip_labels_guard_collides]. Qed.
